@@ -47,6 +47,10 @@ def keys(rnd, tier):
     out.append(("local-random", '<svg><config use-local-styles="true"/><rect wh="{{1 + random()}}" text="{{randint(1, 6)}}" class="d-fill-red"/>'
                                 '<circle cxy="9 9" r="{{random()}}"/></svg>', {"seed": 5}))
     out.append(("local-random", '<svg><rect wh="{{1 + random()}}" class="d-softshadow"/><config use-local-styles="true"/><rect xy="5 5" wh="{{random()}}"/></svg>', {}))
+    # ... and requested through the configuration, where nothing restores the generator afterwards
+    out.append(("local-random", '<svg><rect wh="{{1 + random()}}" text="{{randint(1, 6)}}" class="d-fill-red"/><circle cxy="9 9" r="{{random()}}"/></svg>',
+                {"use_local_styles": True, "seed": 4}))
+    out.append(("local-random", '<svg><loop count="3"><rect xy="{{randint(0, 9)}} 0" wh="1"/></loop></svg>', {"use_local_styles": True}))
     # local styles switched on and off again inside the document: off is off (no random root id)
     out.append(("toggle", '<svg><config use-local-styles="true"/><rect wh="2" class="d-fill-red"/><config use-local-styles="false"/>'
                           '<rect xy="5 5" wh="1" class="d-softshadow"/></svg>', {}))
